@@ -1,2 +1,3 @@
 import Props.Defs
 import Props.C13
+import Props.C14
